@@ -32,6 +32,7 @@ EXPLANATION = (
     "loop form and in the X[:nBlocks*i].reshape(nBlocks, i).sum(axis=1) form. "
     ' PAIR-4: reshape(i, nBlocks).sum(axis=0) (blocks made of strided instead of consecutive samples) is a positive witness against the block geometry; the per-block accumulations may sit in one loop or in two loops over the same range (compared up to the loop counter). '
     ' PAIR-4 (reduceat form): segment sums taken with ufunc.reduceat over arange(0, n, i) need the series cut to n samples first; on the uncut series the trailing nSamples % i samples fall into the last block. '
+    ' jackknife_ratios: Re(a) / Re(b) in place of Re(a / b), and a variance taken of complex ratios with no real part before it, are reported; leave-one-out forms the pairing rule cannot read are noted. '
 )
 NOT_DECIDED = "statistical validity of the error bar, plateau detection, behaviour on autocorrelated series."
 TECHNIQUE = "static analysis: degree-of-homogeneity / shift typing over the AST, def-use pairing rules"
